@@ -14,11 +14,11 @@ res_apply=ok
 git apply $S/patch.diff 2>/dev/null || patch -p1 -s < $S/patch.diff || res_apply=failed
 demo=$(ls $S/*.rs | head -1)
 dname=$(basename $demo .rs)
-suite=$(cargo test --offline --no-fail-fast 2>&1 | grep -E "^test result" | awk '{p+=$4; f+=$6} END {print p" "f}')
-cp $demo tests/$dname.rs
-with=$(cargo test --offline --test $dname 2>&1 | grep -E "^test result" | awk '{p+=$4; f+=$6} END {print p" "f}')
+suite=$(cargo test --offline --no-fail-fast 2>&1 | grep -a -E "^test result" | awk '{p+=$4; f+=$6} END {print p" "f}')
+cp $demo tests/$dname.rs; cp $S/*.inc tests/ 2>/dev/null
+with=$(cargo test --offline --test $dname 2>&1 | grep -a -E "^test result" | awk '{p+=$4; f+=$6} END {print p" "f}')
 git checkout -q -- src
-without=$(cargo test --offline --test $dname 2>&1 | grep -E "^test result" | awk '{p+=$4; f+=$6} END {print p" "f}')
+without=$(cargo test --offline --test $dname 2>&1 | grep -a -E "^test result" | awk '{p+=$4; f+=$6} END {print p" "f}')
 head=$(git rev-parse --short HEAD)
 cd /
 git -C /repo worktree remove --force $W
